@@ -280,6 +280,49 @@ def rule_p(ctx):
                    'computations still run')
 
 
+def rule_u(ctx):
+    """U: when an error leaves lazy_parallel_map, the upstream iteration must be finalised at once (its `finally` stops a
+    prefetch thread below). The helper's frame stays referenced by the traceback of the error, and with it every *local*
+    of the frame - including its arguments - while the iterator that its own `for` created lives on the value stack and
+    is released when the frame unwinds. Hence the helper must be handed the iterable (a dataset, a range, a key tuple) and
+    create the iterator itself; an iterator object created by the caller (`ds.__iter__(...)`, `iter(ds)`, a generator
+    expression) survives the error in the dead frame until the traceback is gone, and the thread keeps loading."""
+    rep = ctx.report
+    helper = ctx.repo.module('parallel_utils').functions.get('lazy_parallel_map')
+    if helper is None:
+        raise AnalysisError('anchor vanished: parallel_utils.lazy_parallel_map')
+    sites = 0
+    for cls in K.family(ctx):
+        for mname, mem in cls.members.items():
+            if not mem.is_function:
+                continue
+            _l, fctx = ctx.effects.local_effects(mem.node, cls, cls.module)
+            for c in A.walk_local(mem.node):
+                if not (isinstance(c, ast.Call) and (A.dotted(c.func) or '').split('.')[-1] == 'lazy_parallel_map'):
+                    continue
+                sites += 1
+                g = flow.bind(c, helper, skip_self=False).args.get('generator')
+                ge = flow.expand(g, mem.node) if g is not None else None
+                # all definitions when the argument is a local bound in several branches
+                cands = [ge]
+                if isinstance(g, ast.Name):
+                    cands = flow.assigned_names(mem.node).get(g.id, []) or [ge]
+                bad = None
+                for e in cands:
+                    if isinstance(e, ast.GeneratorExp):
+                        bad = e
+                    elif isinstance(e, ast.Call) and ((isinstance(e.func, ast.Attribute) and e.func.attr == '__iter__')
+                                                     or A.dotted(e.func) == 'iter'):
+                        bad = e
+                rep.ob('U', K.key(cls, mname, 'helper-gets-the-iterable-not-a-live-iterator'), bad is None, c,
+                       '' if bad is None else 'lazy_parallel_map is handed the iterator `%s` created here: after an error in the '
+                       'mapped function it stays referenced by the dead frame of the helper, the iteration below (e.g. a '
+                       'prefetch thread) is not finalised and keeps running user code after control is back with the consumer'
+                       % A.short(bad, 60))
+    rep.floor('lazy_parallel_map call sites in the stages', sites, 3)
+
+
 def run(ctx):
     rule_w(ctx)
     rule_p(ctx)
+    rule_u(ctx)
